@@ -71,6 +71,8 @@ struct Walk {
     n_null_pad: u64,
     mcin_conv_payload: u64,
     mcin_conv_whole: u64,
+    /// magic of the sub-chunk that ends the file (last sub-chunk of the last MCNK), if the file ends with an MCNK
+    file_ends_with_sub: Option<String>,
 }
 
 fn walk_file(b: &[u8]) -> Walk {
@@ -179,17 +181,20 @@ fn walk_file(b: &[u8]) -> Walk {
     }
     // ---- every MCNK: header offsets -> named sub-chunk; sub-chunk framing tiles the MCNK payload
     for (k, f) in mcnks.iter().enumerate() {
-        walk_mcnk(b, k, f, &mut w);
+        let last_sub = walk_mcnk(b, k, f, &mut w);
+        if f.off + 8 + f.size == b.len() {
+            w.file_ends_with_sub = last_sub;
+        }
     }
     w
 }
 
-fn walk_mcnk(b: &[u8], k: usize, f: &Frame, w: &mut Walk) {
+fn walk_mcnk(b: &[u8], k: usize, f: &Frame, w: &mut Walk) -> Option<String> {
     let start = f.off;
     let end = f.off + 8 + f.size;
     if f.size < 128 {
         w.problems.push(("framing-not-tiling|mcnk".into(), format!("MCNK #{k} payload of {} bytes is shorter than its 128-byte header", f.size)));
-        return;
+        return None;
     }
     *w.bytes_by_kind.entry("MCNK/hdr".into()).or_insert(0) += 8 + 128;
     // sequential walk of the sub-chunks behind the header
@@ -199,11 +204,11 @@ fn walk_mcnk(b: &[u8], k: usize, f: &Frame, w: &mut Walk) {
     while pos < end {
         let (Some(m), Some(mut sz)) = (magic_at(b, pos), rd32(b, pos + 4).map(|x| x as usize)) else {
             w.problems.push(("framing-not-tiling|mcnk".into(), format!("MCNK #{k}: {} trailing bytes at +{} are too short for a sub-chunk header", end - pos, pos - start)));
-            return;
+            return None;
         };
         if pos + 8 > end {
             w.problems.push(("framing-not-tiling|mcnk".into(), format!("MCNK #{k}: {} trailing bytes at +{}", end - pos, pos - start)));
-            return;
+            return None;
         }
         if b[pos..pos + 8].iter().all(|&x| x == 0) {
             // an all-zero 8-byte record frames correctly (empty magic, size 0); tallied, never a sub-chunk
@@ -217,7 +222,7 @@ fn walk_mcnk(b: &[u8], k: usize, f: &Frame, w: &mut Walk) {
         }
         if pos + 8 + sz > end {
             w.problems.push(("framing-not-tiling|mcnk".into(), format!("MCNK #{k}: sub-chunk {m} at +{} claims {sz} bytes and overruns the MCNK end", pos - start)));
-            return;
+            return None;
         }
         if !SUB_MAGICS.contains(&m.as_str()) {
             w.problems.push(("framing-unknown-chunk|mcnk".into(), format!("MCNK #{k}: record at +{} has magic {m:?}, which is no MCNK sub-chunk", pos - start)));
@@ -252,6 +257,7 @@ fn walk_mcnk(b: &[u8], k: usize, f: &Frame, w: &mut Walk) {
             )),
         }
     }
+    subs.last().map(|s| s.magic.clone())
 }
 
 // =====================================================================================================
@@ -1335,7 +1341,12 @@ fn report_walk(c: &mut Case, w: &Walk, ver: &str, stage: &str) {
     }
 }
 
-fn parse_root(c: &mut Case, bytes: &[u8], ver: &str, stage: &str, sig_stem: &str) -> Option<RootAdt> {
+fn parse_root(c: &mut Case, bytes: &[u8], w: &Walk, ver: &str, stage: &str, sig_stem: &str) -> Option<RootAdt> {
+    // structural trigger predicate for the signature: which sub-chunk ends the file
+    let trig = match w.file_ends_with_sub.as_deref() {
+        Some("MCLQ") => "file-ends-with-MCLQ",
+        _ => "other-file-end",
+    };
     match trap(|| parse_adt(&mut Cursor::new(bytes))) {
         Err(p) => {
             c.violate(format!("{sig_stem}|panic|{}|{ver}", p.sig()), format!("[{stage}] parse_adt panicked: {}", p.msg), json!({"len": bytes.len()}));
@@ -1344,7 +1355,7 @@ fn parse_root(c: &mut Case, bytes: &[u8], ver: &str, stage: &str, sig_stem: &str
         Ok(Err(e)) => {
             let d = format!("{e:?}");
             let kind: String = d.chars().take_while(|ch| ch.is_alphanumeric()).collect();
-            c.violate(format!("{sig_stem}|{kind}|{ver}"), format!("[{stage}] parse_adt rejected a file the library wrote itself: {e}"), json!({"len": bytes.len(), "error": d.chars().take(300).collect::<String>()}));
+            c.violate(format!("{sig_stem}|{kind}|{trig}|{ver}"), format!("[{stage}] parse_adt rejected a file the library wrote itself ({trig}): {e}"), json!({"len": bytes.len(), "error": d.chars().take(300).collect::<String>()}));
             None
         }
         Ok(Ok(ParsedAdt::Root(r))) => Some(*r),
@@ -1461,7 +1472,7 @@ fn check_case(c: &mut Case, input: &Input) {
     let w0 = walk_file(&x0);
     report_walk(c, &w0, ver, "build");
     // ---- (a) parse and compare with the builder input
-    let Some(root0) = parse_root(c, &x0, ver, "build", "parse-failed") else { return };
+    let Some(root0) = parse_root(c, &x0, &w0, ver, "build", "parse-failed") else { return };
     c.count(&format!("detected|{ver}->{}", vname(root0.version)), 1);
     let want = content_of_input(input);
     let mut prev = content_of_root(&root0);
@@ -1537,7 +1548,7 @@ fn check_case(c: &mut Case, input: &Input) {
         } else {
             c.count("rounds_not_grown", 1);
         }
-        let Some(rr) = parse_root(c, &xr, ver, &stage, &format!("rebuild-parse-failed|{stage}")) else { return };
+        let Some(rr) = parse_root(c, &xr, &wr, ver, &stage, &format!("rebuild-parse-failed|{stage}")) else { return };
         let cur = content_of_root(&rr);
         for (field, pv) in &prev.top {
             compare_field(c, format!("rebuild-content|{field}|{stage}"), ver, "content changed across parse->rebuild->parse", field, None, pv, cur.top.get(field).unwrap_or(&Value::Null));
